@@ -147,3 +147,107 @@ def choose_inputs(prog, gp, rnd, n, pool_factor=6):
             break
         chosen.append(env)
     return chosen[: max(n, len(covered))], covered
+
+
+# ---------------------------------------------------------------------------------------------
+# kinds of identifiers inferred from a reference AST (for texts that did not come from ProgGen)
+
+
+class Inferred:
+    """duck-types GenProg for pyabv.gen.inputs.gen_env"""
+
+    def __init__(self, prog, text):
+        from pyabv.ref.eval import leaves, predicates_of
+        from pyabv.ref.parse import Id, Lit, Tup
+
+        self.text = text
+        self.ast = prog
+        kinds, lits = {}, {}
+
+        def base_of(v):
+            return "str" if isinstance(v, str) else "num"
+
+        def note(name, kind, vals=()):
+            if kind is not None and name not in kinds:
+                kinds[name] = kind
+            lits.setdefault(name, []).extend(vals)
+
+        def tuple_base(t):
+            for x in t.items:
+                if isinstance(x, Lit):
+                    return base_of(x.value), False
+                if isinstance(x, Tup):
+                    b, _ = tuple_base(x)
+                    return b, True
+            return None, False
+
+        def tup_value(t):
+            return tuple(x.value if isinstance(x, Lit) else (tup_value(x) if isinstance(x, Tup) else None) for x in t.items)
+
+        cmps = [c for p in predicates_of(prog.cond) for c in leaves(p)]
+        for _ in range(3):
+            for c in cmps:
+                a, b, op = c.left, c.right, c.op
+                for x, y in ((a, b), (b, a)):
+                    if not isinstance(x, Id):
+                        continue
+                    member_side = (x is a)
+                    if op in ("in", "not in"):
+                        if member_side:
+                            if isinstance(y, Tup):
+                                base, nested = tuple_base(y)
+                                if nested:
+                                    note(x.name, "t" + (base or "num"), [tup_value(i) for i in y.items if isinstance(i, Tup)])
+                                else:
+                                    note(x.name, base or "str", [i.value for i in y.items if isinstance(i, Lit)])
+                                    for i in y.items:
+                                        if isinstance(i, Id):
+                                            note(i.name, base or kinds.get(x.name))
+                            elif isinstance(y, Id):
+                                if y.name in kinds and kinds[y.name].startswith("t"):
+                                    note(x.name, kinds[y.name][1:])
+                                elif x.name in kinds and not kinds[x.name].startswith("t"):
+                                    note(y.name, "t" + kinds[x.name])
+                            elif isinstance(y, Lit):
+                                note(x.name, base_of(y.value), [y.value])
+                        else:  # x is the container
+                            if isinstance(y, Lit):
+                                note(x.name, "t" + base_of(y.value), [y.value])
+                            elif isinstance(y, Id) and y.name in kinds and not kinds[y.name].startswith("t"):
+                                note(x.name, "t" + kinds[y.name])
+                            elif isinstance(y, Tup):
+                                base, _ = tuple_base(y)
+                                note(x.name, "t" + (base or "num"), [tup_value(y)])
+                    else:
+                        if isinstance(y, Lit):
+                            note(x.name, base_of(y.value), [y.value])
+                        elif isinstance(y, Tup):
+                            base, _ = tuple_base(y)
+                            note(x.name, "t" + (base or "num"), [tup_value(y)])
+                            for i in y.items:
+                                if isinstance(i, Id):
+                                    note(i.name, base)
+                        elif isinstance(y, Id) and y.name in kinds:
+                            note(x.name, kinds[y.name])
+        for n in prog.identifiers:
+            kinds.setdefault(n, "str")
+            lits.setdefault(n, [])
+        self.splitter_only = set()
+        self.shared = set()
+        for s in prog.splitters or []:
+            if s in kinds:
+                self.shared.add(s)
+            else:
+                kinds[s] = "any"
+                self.splitter_only.add(s)
+        self.kinds = kinds
+        self.lits = lits
+        self.features = set()
+
+
+def all_labels(prog):
+    return [g.label.value for r in rparse.returns_of(prog.cond) for g in r.groups]
+
+
+def is_member(prog, value):
+    return any(same_value(v, value) for v in all_labels(prog))
